@@ -54,6 +54,8 @@ pub enum Op {
     Str(String),
     Flush,
     Resize(usize, usize),
+    /// checkpoint only (no API call): delimits a chunk of characters for the C20 oracle
+    Mark,
 }
 
 #[derive(Clone, Debug)]
@@ -569,6 +571,11 @@ pub fn shaping(rng: &mut Rng, ctx: &Ctx) -> Vec<Op> {
         3 => ops.push(Op::Str("\x1b[?6l\x1b[999;1H".into())),
         _ => {}
     }
+    if rng.chance(4) && rows >= 4 {
+        // origin mode on with the cursor outside the region (reachable only through DECRC)
+        let a = rng.range(1, rows - 2);
+        ops.push(Op::Str(format!("{}\x1b[?6h\x1b[{};{}r\x1b[1;{}H\x1b7\x1b[{};{}r\x1b8{}", if rng.chance(50) { "\x1b[?7l" } else { "" }, a, a + 1, rng.range(1, cols), a + 2, rows, if rng.chance(50) { "\x1b[?7h" } else { "" })));
+    }
     if rng.chance(12) {
         ops.push(Op::Flush);
     }
@@ -616,7 +623,14 @@ pub fn gen_case(rng: &mut Rng, p: &Profile) -> Case {
             ops.push(Op::Flush);
         } else {
             let k = rng.weighted(&p.weights);
-            ops.push(Op::Str(token(rng, &ctx, k)));
+            if (k == K_STRING || k == K_MALFORMED || k == K_C1) && rng.chance(70) {
+                // delimit candidates for "inert" sequences so that the C20 statement sees them alone
+                ops.push(Op::Mark);
+                ops.push(Op::Str(token(rng, &ctx, k)));
+                ops.push(Op::Mark);
+            } else {
+                ops.push(Op::Str(token(rng, &ctx, k)));
+            }
         }
     }
     if rng.chance(60) {
